@@ -176,7 +176,7 @@ class EngineC13:
         else:
             fn = weighted(
                 g,
-                [("stratified", 5), ("semistrat", 3), ("uniform", 1), ("gcpsampler_default", 2), ("gcpsampler_stratified", 3), ("gcpsampler_semistrat", 2), ("gcpsampler_uniform", 2)],
+                [("stratified", 5), ("semistrat", 3), ("uniform", 1), ("gcpsampler_default", 2), ("gcpsampler_stratified", 3), ("gcpsampler_semistrat", 2), ("gcpsampler_uniform", 2), ("zeros", 2)],
             )
         big = g.random() < 0.3
         n_nz = g.choice([0, 1, 2, 3, nnz, nnz + 2]) if not big else nnz + g.randint(1, 5)
@@ -199,6 +199,7 @@ class EngineC13:
             "over_sample_rate": g.choice([1.1, 1.1, 1.5, 3.0]),
             "np_seed": np_seed,
             "dense_layout": g.choice(["F", "grown"]),
+            "with_replacement": g.random() < 0.5,
         }
 
     def _gen_solve_step(self, g, sw, np_seed, stochastic: bool, like=None):
@@ -291,6 +292,10 @@ class EngineC13:
                 if all(pm):
                     pm[0] = 0
                 step["prior_fold"] = pm
+        if g.random() < 0.3:
+            # another optimizer object of the same class, configured differently, is constructed (and perhaps used)
+            # in the same process just before this solve: objects must not share their configuration or state
+            step["decoy"] = {"solve": g.random() < 0.5}
         return step
 
     def _finish(self, res):
@@ -415,6 +420,37 @@ class EngineC13:
                 if fn == "uniform":
                     out = S.uniform(data, samples)
                     kind = "uniform"
+                elif fn == "zeros":
+                    # the zero sampler called directly, with and without replacement
+                    nz_idx = np.sort(self.ttb.pyttb_utils.tt_sub2ind(data.shape, data.subs)) if nnz else np.array([], dtype=int)
+                    wr = bool(step.get("with_replacement", True))
+                    want = n_z if wr else min(n_z, nzeros)
+                    try:
+                        zs = S.zeros(data, nz_idx, want, osr, with_replacement=wr)
+                    except ValueError as e:
+                        if not wr and ("Need too many zero samples" in str(e) or "Cannot sample more" in str(e)):
+                            res.bump("probe:zeros_without_replacement_declined")
+                            return None
+                        raise
+                    zs = np.asarray(zs)
+                    if want == 0 and zs.size == 0:
+                        res.bump("samples_checked")
+                        return None
+                    if zs.ndim != 2 or zs.shape[1] != x.ndim or zs.dtype.kind not in "iu":
+                        return V("sample_subscripts_inside_tensor", f"zeros(..., {want}, with_replacement={wr}) returned an array of shape {zs.shape} dtype {zs.dtype}")
+                    if zs.shape[0] > want:
+                        return V("sample_triple_is_consistent", f"zeros(..., {want}) returned {zs.shape[0]} subscripts")
+                    if zs.size and ((zs < 0).any() or (zs >= np.array(x.shape)).any()):
+                        return V("sample_subscripts_inside_tensor", f"zeros(..., {want}, with_replacement={wr}) returned subscripts outside shape {x.shape}: {zs.tolist()[:6]}")
+                    badz = [tuple(r) for r in zs.tolist() if x[tuple(r)] != 0]
+                    if badz:
+                        return V("sample_values_equal_data", f"zeros(..., {want}, with_replacement={wr}) on shape {x.shape} with {nnz} nonzeros delivered {len(badz)} positions that hold nonzeros, e.g. {badz[:4]}")
+                    if not wr and len({tuple(r) for r in zs.tolist()}) != zs.shape[0]:
+                        return V("sample_triple_is_consistent", f"zeros(..., {want}, with_replacement=False) delivered repeated positions")
+                    res.bump("samples_checked")
+                    res.bump("probe:zeros_direct" + ("" if wr else "_without_replacement"))
+                    res.events.append([i, fn, "ok", int(zs.shape[0])])
+                    return None
                 elif fn == "stratified":
                     nz_idx = np.sort(self.ttb.pyttb_utils.tt_sub2ind(data.shape, data.subs)) if nnz else np.array([], dtype=int)
                     out = S.stratified(data, nz_idx, n_nz, n_z, osr)
@@ -688,6 +724,23 @@ class EngineC13:
 
         return wrapped
 
+    def _decoy(self, w, step, res):
+        d = step.get("decoy")
+        if not d:
+            return
+        spec = dict(w["init"]["optimizer"])
+        if spec["class"] == "LBFGSB":
+            spec.update(maxiter=1 if spec["maxiter"] > 1 else 4, factr=1e13, m=7, maxls=6, maxfun=2, user_callback=False)
+        else:
+            spec.update(rate=spec["rate"] * 3.7, decay=0.9, max_fails=spec["max_fails"] + 2, epoch_iters=spec["epoch_iters"] + 2, max_iters=1, f_est_tol=None, printitn=0)
+        other = self._make_optimizer(spec)
+        res.bump("probe:other_optimizer_object_constructed")
+        if d.get("solve"):
+            plain = dict(step)
+            plain.pop("prior_fold", None)
+            self._solve_once(other, plain, 0.25, False)
+            res.bump("probe:other_optimizer_object_used")
+
     def _solve_once(self, optimizer, step, tick, with_fault: bool, prior: bool = False):
         """One gcp_opt call in a fresh world. Returns dict(outcome). With ``prior`` (and a recorded ``prior_fold``) the
         call is preceded by another solve on the same data object and optimizer under the other hold-out mask."""
@@ -778,6 +831,7 @@ class EngineC13:
         V = lambda oracle, detail: Violation("C13", oracle, "solve:" + cls, i, detail)  # noqa: E731
         w["solve_no"] += 1
         fault = step.get("fault")
+        self._decoy(w, step, res)
         out = self._solve_once(w["optimizer"], step, step["tick"], True)
         res.sim_seconds += out["clock"].span()
         c = out["counters"]
@@ -914,6 +968,7 @@ class EngineC13:
             return None
         w["solve_no"] += 1
         fault = step.get("fault")
+        self._decoy(w, step, res)
         opt = w["optimizer"]
         if fault and fault["where"] == "callback" and w.get("user_cb") is None:
             fault = {"where": "function_handle", "at": fault["at"]}
